@@ -976,7 +976,8 @@ class ConstrainedQuadraticModel(cyConstrainedQuadraticModel):
             constraint_labels = set()
             for arch in zf.namelist():
                 # even on windows zip uses /
-                match = re.match("constraints/([^/]+)/", arch)
+                # the (json) label can itself contain /, the member name cannot
+                match = re.match("constraints/(.+)/[^/]*$", arch)
                 if match is not None:
                     constraint_labels.add(match.group(1))
 
@@ -1085,7 +1086,8 @@ class ConstrainedQuadraticModel(cyConstrainedQuadraticModel):
             constraint_labels = set()
             for arch in zf.namelist():
                 # even on windows zip uses /
-                match = re.match("constraints/([^/]+)/", arch)
+                # the (json) label can itself contain /, the member name cannot
+                match = re.match("constraints/(.+)/[^/]*$", arch)
                 if match is not None:
                     constraint_labels.add(match.group(1))
 
